@@ -154,3 +154,44 @@ def _one(chk, fi, fname, ex, rules):
         else:
             chk.ok("F3", {"element": f["entity"], "formatter_state": f["fmt"][0]},
                    nontrivial_key=(f["entity"], f["fmt"][0], selected, f["show_skipped"]))
+
+
+def check_outline_skip(chk, ix):
+    """H6: skipping an outline (from a hook, or through feature.skip() / rule.skip()) reaches its row scenarios even when
+    they have not been built yet: ScenarioOutline.skip() evaluated with an empty row cache and rows that the 'scenarios'
+    property builds on demand."""
+    from .index import AnalysisError
+    from .values import HObj, State, Ref
+    from .absint import Interp
+    from .world import S
+    chk.rule("H6", "skip() of a scenario outline skips every row scenario, built or not (their hooks and steps must not run afterwards)")
+    oc = ix.cls("behave.model:ScenarioOutline")
+    f = oc.lookup("skip")
+    for rows in (("r1", "r2"), ()):
+        skipped = []
+        st = State()
+        st.frames = []
+        toks = [st.alloc(HObj("RowTok", {}, label=r)) for r in rows]
+        rowlist = st.alloc(HObj("list", kind="list", items=toks, label="rows (built on demand)"))
+        stubs = {"RowTok.skip": lambda i, s_, a, k, n: (skipped.append(s_.obj(a[0]).label), [(s_, "val", None)])[1],
+                 "logging.getLogger": lambda i, s_, a, k, n: [(s_, "val", s_.alloc(HObj("LoggerTok", {})))],
+                 "LoggerTok.warning": lambda i, s_, a, k, n: [(s_, "val", None)],
+                 "ScenarioOutline.compute_status": lambda i, s_, a, k, n: [(s_, "val", S("skipped"))]}
+        it = Interp(ix, stubs=stubs, attr_stubs={"ScenarioOutline.scenarios": lambda i, s_, b, n: [(s_, "val", rowlist)]}, name="ScenarioOutline.skip")
+        me = st.alloc(HObj(oc, {"name": "o", "should_skip": False, "_cached_status": S("untested"), "hook_failed": False,
+                                "_scenarios": st.alloc(HObj("list", kind="list", items=[], label="row cache (not built yet)"))}, label="outline"))
+        outs = it.call_function(st, f, [], {}, None, self_val=me)
+        chk.absorb(it)
+        chk.instance("H6")
+        outs = [o for o in outs if not (o[1] == "raise" and o[2].internal == "assert")]
+        if len(outs) != 1 or outs[0][1] != "val":
+            raise AnalysisError("ScenarioOutline.skip not evaluable: %r" % ([(k, v) for _, k, v in outs][:3],))
+        s2 = outs[0][0]
+        flag = s2.obj(me).fields.get("should_skip")
+        if skipped == list(rows) and flag is True:
+            chk.ok("H6", {"rows": list(rows), "row cache": "empty", "skipped": skipped, "outline.should_skip": True}, nontrivial_key=rows)
+        else:
+            chk.fail(Finding("H6", f.fullname, "rows %s: skipped %s" % (list(rows), skipped),
+                             "ScenarioOutline.skip() with the rows %s not built yet skips %s and leaves should_skip=%r: rows built afterwards are "
+                             "not skipped, so their hooks and steps run although a hook skipped the feature / rule / outline" % (list(rows), skipped, flag),
+                             file=f.file, line=f.lineno, stmt="def skip"))
